@@ -2,6 +2,7 @@ package props
 
 import (
 	"io"
+	stdlog "log"
 	"testing"
 
 	log "github.com/sirupsen/logrus"
@@ -11,6 +12,7 @@ import (
 
 func TestMain(m *testing.M) {
 	log.SetOutput(io.Discard)
+	stdlog.SetOutput(io.Discard)
 	hx.Main(m)
 }
 
